@@ -107,8 +107,11 @@ Merge(vs) == IF Cardinality(vs) = 1 THEN CHOOSE v \in vs : TRUE ELSE 2
 ClaV  == Merge({ V(RLt(SFq, RMul(Eps(b), F0)), RLt(RMul(Eps(b), F0), SFq)) : b \in Bands })
 ClaVI == Merge({ V(RLt(SigA(P0), Theta(b)), RLt(Theta(b), SigA(P0))) : b \in Bands })
 
-\* the shape's peak must be the (unique) answer of the peak search over the range, else the case is not an instance
-IsInstance == P_Allowed(A, rng[1], rng[2]) = {P0}
+\* the shape's peak must be an answer of the peak search over the range: THE answer, or - for a flat top of two samples - one
+\* of the two, the other one being the neighbour that shares sigma_A with it (so both choices describe the same input curves;
+\* the harness accepts the verdicts of either choice)
+PkAnswers == P_Allowed(A, rng[1], rng[2])
+IsInstance == P0 \in PkAnswers /\ (PkAnswers = {P0} \/ PkAnswers = {P0, P0 + side})
 
 Init == /\ \E s \in Shapes : a = s.a /\ p0 = s.peak
         /\ sp \in Sigmas /\ se \in SigmaElse /\ side \in Sides
@@ -125,5 +128,5 @@ MoreWindowsNeverFailII == done /\ res[2] = 1 => \A l2 \in LWs, n2 \in NWs : (l2 
 SmallerStdNeverFailsV  == done /\ res[8] = 1 => \A s2 \in SFs : RLe(Q(s2[1], s2[2]), SFq) =>
                               \A b \in Bands : RLt(Q(s2[1], s2[2]), RMul(Eps(b), F0))
 ExportCase == (Export /\ done) =>
-    PrintT(ToJson([a |-> a, p0 |-> p0, sp |-> sp, se |-> se, side |-> side, lw |-> lw, nw |-> nw, sf |-> sf, rng |-> rng, res |-> res]))
+    PrintT(ToJson([a |-> a, p0 |-> p0, npk |-> Cardinality(PkAnswers), sp |-> sp, se |-> se, side |-> side, lw |-> lw, nw |-> nw, sf |-> sf, rng |-> rng, res |-> res]))
 =============================================================================
